@@ -21,17 +21,19 @@ type Config struct {
 	MaxViolations int // per label
 	Trace         bool
 	NoIfConv      bool
+	Fallback      string        // secondary solver asked when the primary answers unknown
+	Deadline      time.Duration // wall-clock budget of one harness (0 = none)
 }
 
 func DefaultConfig() Config {
-	return Config{MaxSteps: 3_000_000, MaxConcretize: 4096, MaxAlloc: 1 << 16, MaxPaths: 2_000_000, Solver: "z3", TimeoutMs: 10000, Workers: 16, MaxViolations: 2}
+	return Config{MaxSteps: 3_000_000, MaxConcretize: 4096, MaxAlloc: 1 << 16, MaxPaths: 2_000_000, Solver: "cvc5", Fallback: "z3", TimeoutMs: 4000, Workers: 16, MaxViolations: 2}
 }
 
 type Stats struct {
 	Paths, Completed, Infeasible, Panicked, Inconclusive, Dead int
 	VCs, VCConst, VCUnsat, VCSat                               int
 	Instrs                                                     int64
-	IfConv, RangePruned                                        int
+	IfConv, RangePruned, Fallbacks                             int
 	Queries, QSat, QUnsat, QUnk                                int
 	SolverTime                                                 time.Duration
 }
@@ -55,11 +57,12 @@ type Explorer struct {
 
 	runtimeErrorString types.Type
 
-	mu     sync.Mutex
-	cond   *sync.Cond
-	stack  [][]Decision
-	active int
-	stop   bool
+	mu      sync.Mutex
+	cond    *sync.Cond
+	stack   [][]Decision
+	active  int
+	stop    bool
+	started time.Time
 
 	Stats        Stats
 	Violations   []*Violation
@@ -113,6 +116,11 @@ func (x *Explorer) popWork() ([]Decision, bool) {
 	x.mu.Lock()
 	defer x.mu.Unlock()
 	for {
+		if !x.stop && x.Cfg.Deadline > 0 && time.Since(x.started) > x.Cfg.Deadline {
+			x.stop = true
+			x.Inconcl[fmt.Sprintf("time budget of %s exceeded with %d paths pending", x.Cfg.Deadline, len(x.stack))]++
+			x.cond.Broadcast()
+		}
 		if x.stop {
 			return nil, false
 		}
@@ -173,6 +181,7 @@ type Worker struct {
 	X          *Explorer
 	tb         *TB
 	S          *Solver
+	S2         *Solver
 	byteConsts [256]*Term
 	stats      Stats
 	funcs      map[*ssa.Function]*FuncStat
@@ -196,6 +205,7 @@ func (w *Worker) noteIntrinsic(name string) { w.intr[name]++ }
 // Run explores all paths of the harness.
 func (x *Explorer) Run() error {
 	x.stack = [][]Decision{nil}
+	x.started = time.Now()
 	var wg sync.WaitGroup
 	errs := make(chan error, x.Cfg.Workers)
 	workers := make([]*Worker, x.Cfg.Workers)
@@ -240,6 +250,12 @@ func (x *Explorer) Run() error {
 		st.Instrs += w.stats.Instrs
 		st.IfConv += w.stats.IfConv
 		st.RangePruned += w.stats.RangePruned
+		st.Fallbacks += w.stats.Fallbacks
+		if w.S2 != nil {
+			st.Queries += w.S2.Queries
+			st.SolverTime += w.S2.Time
+			w.S2.Close()
+		}
 		st.Queries += w.S.Queries
 		st.QSat += w.S.NSat
 		st.QUnsat += w.S.NUnsat
@@ -373,7 +389,7 @@ func (w *Worker) runPath(prefix []Decision) {
 	default:
 		w.stats.Inconclusive++
 	}
-	if outcome == "completed" || outcome == "panic" {
+	if outcome == "completed" || outcome == "panic" || outcome == "dead" {
 		// witnesses for reach markers
 		var need []string
 		x.mu.Lock()
